@@ -35,6 +35,8 @@ func init() {
 			{ID: "C13.13", Desc: "a signed stale-if-error value opens no window", Run: func(c *Ctx) { ruleDeltaSecondsUnsigned(c, "C13.13") }, MinSites: 1},
 			{ID: "C13.14", Desc: "the error reply's header fields do not decide whether stale-if-error applies", Run: func(c *Ctx) { ruleSIEGuardIgnoresErrorReplyHeader(c, "C13.14") }, MinSites: 1},
 			{ID: "C13.15", Desc: "each stale-if-error directive opens its own window (no sum over the stored response's and the request's)", Run: func(c *Ctx) { ruleSIEWindowPerDirective(c, "C13.15") }, MinSites: 1},
+			{ID: "C13.16", Desc: "behind a positive stale-if-error decision only the stored response is returned", Run: func(c *Ctx) { ruleSIEBranchReturnsStored(c, "C13.16") }, MinSites: 1},
+			{ID: "C13.17", Desc: "a response with a lifetime of zero has a stale-if-error window like any other", Run: func(c *Ctx) { ruleSIEComparisonsInvolveWindow(c, "C13.17") }, MinSites: 1},
 		},
 	})
 }
